@@ -7,6 +7,7 @@ Proofs: Proofs/SrcCtorBytes.lean.
 import TonVerif.Proofs.SrcCtorBytes
 import TonVerif.Proofs.SrcCtorCnt
 import TonVerif.Model.Cost
+import TonVerif.Proofs.SrcHeaderWork
 
 namespace TonVerif.Properties.C19
 open TonVerif TonVerif.Model TonVerif.Model.Cost TonVerif.Generated.CellCtor
@@ -96,6 +97,29 @@ example : let H : Bytes → Bytes := fun x => (x ++ List.replicate 32 0).take 32
     let leaf : CellInfo := { kind := -1, bits := [], nrefs := 0, mask := 0, hashes := [List.replicate 32 7], depths := [0] }
     ((init H [true] [leaf, leaf] (-1)).map fun o => o.hashes.length) = some 1 ∧ levelBound [true] [leaf, leaf] = 102 ∧
       levelIters (-1) [leaf, leaf] [true] = 1 := by decide +kernel
+
+/-- HEADER WORK, on the regenerated `Boc.deserialize_boc_header` (`Generated.BocHeader.header`, re-translated from deserialize.py on every run), for
+every byte string on which it RETURNS.  The three comprehensions of the code: (1) `[bytes_to_uint(data[i:i+size]) for i in range(6, 6+3·size, size)]` runs a
+FIXED 3 times (it is unpacked into `cells_num, roots_num, absent_num`; `size_bytes ≥ 1`, otherwise `range` raises), after the pre-check
+`len − 5 ≥ 1 + 3·size`; (2) the root list runs `roots_num` times (`len(root_list) = roots_num`), after the check `len − i ≥ roots_num·size`; (3) the index
+runs `cells_num` times with `offset_bytes ≥ 1`-wide reads, after the check `len − i ≥ offset_bytes·cells_num`.  Together `3 + len(root_list) + len(index) ≤
+len(data) − 3`.  The Python-level CRC loop runs once, over exactly the first `len(data) − 4` bytes, and only when the flag is set.
+PARTIAL: the full statement - for EVERY run, also the raising ones, comprehension iterations ≤ len(data) and CRC bytes ≤ len(data) − 4 (a raising run may
+have computed the CRC over `i ≤ len − 4` bytes before "Too many bytes in boc") - needs an iteration-counting copy of the header text (the comprehensions
+are `List.map` over `Py.range?`, the CRC is `Model.crc32c` there); for raising runs the count remains the cost model's `bocCost.hdr` / `crc`, whose
+stage structure is C05's `Path` relation (`c19_boc_parse_all` bounds it by the input length). -/
+theorem c19_src_header_work_partial (data : Bytes) (h : Generated.BocHeader.HeaderOut) (hh : Generated.BocHeader.header data = some h) :
+    1 ≤ h.size_bytes ∧
+    3 + h.root_list.length + (match h.index with | some ix => ix.length | none => 0) + 3 ≤ data.length ∧
+    h.root_list.length = h.roots_num ∧
+    (∀ ix, h.index = some ix → ix.length = h.cells_num ∧ 1 ≤ h.offset_bytes ∧ h.cells_num * h.offset_bytes ≤ data.length) ∧
+    (h.hash_crc32 = true → 4 ≤ data.length ∧
+      ∃ c, Model.crc32c (data.take (data.length - 4)) = some c ∧ c = data.drop (data.length - 4)) :=
+  TonVerif.Proofs.SrcHeaderWork.header_work data h hh
+
+/-- non-vacuity: the 13-byte generic bag header with one root and an empty cell (size 1, offset 1, no index, no CRC) is accepted: 1 root read -/
+example : ((Generated.BocHeader.header [181, 238, 156, 114, 1, 1, 1, 1, 0, 2, 0, 0, 0]).map fun h => (h.root_list.length, h.size_bytes)) = some (1, 1) := by
+  decide +kernel
 
 /-! ## END c19src2 -/
 
